@@ -1,2 +1,58 @@
-(* C09 — computed national check digits validate; parse and rebuild round-trips.  (in progress) *)
-From Schwifty Require Import Lib.Base Model.Data Model.Bban.
+(* C09 — computed national check digits validate; parsing and rebuilding round-trips.
+   Statements only; proofs in Proofs/GenerateFacts.v, Proofs/PlaceFacts.v, Proofs/ComputeShape.v. *)
+From Coq Require Import Lia ZArith List Bool.
+From Schwifty Require Import Lib.Base Lib.Lit Model.Clean Model.Data Model.Iban Model.Bban Model.Generate
+  Model.Registry Model.Lookup.
+From Schwifty Require Import Spec.Iso13616 Proofs.CleanFacts Proofs.PlaceFacts Proofs.RebuildFacts Proofs.ComputeShape Proofs.GenerateFacts.
+From Schwifty Require Import Gen.Env Gen.IbanData Gen.IbanCfg Gen.ChecksumCfg Gen.Banks.
+From Coq Require Import String.
+Open Scope list_scope.
+Import ListNotations.
+
+(* the countries the property names are exactly those whose default algorithm computes digits of a fixed width *)
+Definition computing (cc : text) : option nat :=
+  match assoc (cc ++ [58%N] ++ k_default) registered with
+  | Some (cls, _) => class_width cls
+  | None => None
+  end.
+Definition c09_countries : list text :=
+  map s2t ["BE"; "BA"; "ES"; "FR"; "MC"; "IT"; "SM"; "FI"; "NO"; "PL"; "EE"; "PT"; "RS"; "ME"; "MK"; "SI"; "TL"; "MR"; "TN"]%string.
+Lemma C09_countries_obl :
+  forallb (fun r => Bool.eqb (match computing (r_cc r) with Some _ => true | None => false end)
+                             (existsb (text_eqb (r_cc r)) c09_countries)) the_table = true.
+Proof. vm_cast_no_check (eq_refl true). Qed.
+
+(* every IBAN built from components passes the country's national validation: computing and validating agree *)
+Theorem C09_generated_valid : forall national cc r cls acc w bank account branch s,
+  find_row the_table cc = Some r -> text_eqb cc (tx "DE") = false ->
+  assoc (cc ++ [58%N] ++ k_default) registered = Some (cls, acc) -> class_width cls = Some w ->
+  generate national cc bank account branch = Ok s ->
+  validate_national the_table the_algos (bank_code_entries the_banks) cc (iban_bban the_env s) = Ok true.
+Proof. exact gen_national_valid. Qed.
+
+(* conversely: the components read off a structurally conforming, nationally valid BBAN, handed back to
+   BBAN.from_components, give a BBAN of the same length that agrees with it at every component's position
+   (positions belonging to no component are not constrained) *)
+Theorem C09_rebuild : forall cc r ps b,
+  find_row the_table cc = Some r -> r_positions r = Some ps -> conforms_row r b = true ->
+  validate_national the_table the_algos (bank_code_entries the_banks) cc b = Ok true ->
+  exists b', from_components the_env the_components the_table the_algos cc (read_off r b) = Ok b' /\ len b' = len b /\
+    forall k, In k the_components ->
+      get_slice b' (fst (rng r k)) (Some (snd (rng r k))) = get_slice b (fst (rng r k)) (Some (snd (rng r k))).
+Proof. exact gen_rebuild. Qed.
+
+Print Assumptions C09_generated_valid.
+Print Assumptions C09_rebuild.
+
+Example C09_ex :
+  generate (fun _ _ => Ok true) (tx "BE") (tx "539") (tx "0075470") [] = Ok (tx "BE68539007547034")
+  /\ computing (tx "BE") = Some 2.
+Proof. split; vm_compute; reflexivity. Qed.
+
+Example C09_ex_rebuild :
+  match find_row the_table (tx "BE") with
+  | Some r => from_components the_env the_components the_table the_algos (tx "BE") (read_off r (tx "539007547034"))
+              = Ok (tx "539007547034")
+  | None => False
+  end.
+Proof. vm_compute. reflexivity. Qed.
